@@ -4,6 +4,7 @@ use crate::parser::InstructionProperties;
 use crate::parser::LabelStringToken;
 use crate::parser::ParserNode;
 use crate::parser::Register;
+use std::cell::Cell;
 use std::cell::Ref;
 use std::cell::RefCell;
 use std::collections::HashSet;
@@ -26,6 +27,10 @@ pub struct CfgNode {
     pub labels: HashSet<LabelStringToken>,
     /// Which segment is this node in?
     segment: Segment,
+    /// Position of this node in the program (all files, in the order they
+    /// were read). A source range alone does not order nodes of different
+    /// files.
+    position: Cell<usize>,
     /// CFG nodes that come after this one (forward edges).
     nexts: RefCell<HashSet<Rc<CfgNode>>>,
     /// CFG nodes that come before this one (backward edges).
@@ -88,6 +93,7 @@ impl CfgNode {
             node: RefCell::new(node),
             labels,
             segment,
+            position: Cell::new(0),
             nexts: RefCell::new(HashSet::new()),
             prevs: RefCell::new(HashSet::new()),
             function: RefCell::new(HashSet::new()),
@@ -99,6 +105,16 @@ impl CfgNode {
             live_out: RefCell::new(RegisterSet::new()),
             u_def: RefCell::new(RegisterSet::new()),
         }
+    }
+
+    /// Position of this node in the program, see `Cfg::new`.
+    #[must_use]
+    pub fn position(&self) -> usize {
+        self.position.get()
+    }
+
+    pub(crate) fn set_position(&self, position: usize) {
+        self.position.set(position);
     }
 
     #[must_use]
